@@ -2,6 +2,16 @@
 """Derive seeded/<id>/status.json from confirm.txt (+ recheck.txt written by tools/recheck_seed.sh)."""
 import glob, json, os, re
 INITIALLY_MISSED = {  # seeded change -> what the check lacked (strengthening done afterwards)
+ "C02-4": "prefix-related category/package keys (a vs a-b, a+b, a.b ...) + reference order, min/max and sorted-chain oracles added to C02",
+ "C04-3": "history dimension (every ordered pair of matches over equal-but-differently-spelled versions x revisions) added to C04",
+ "C04-4": "glob atoms written on bare suffix names (_p, _alpha ...) and version letters + packages continuing there added to C04",
+ "C07-3": "glob atoms over equal-but-differently-spelled versions + packages only one spelling matches added to C07",
+ "C07-4": "depth-3 query sequences with a fresh restriction object per step (previous one freed) added to C07",
+ "C08-4": "operation sequences (query / notify_add / notify_remove / stack+repo) before the judged query added to C08",
+ "C13-4": "repo-level mask x profile '-atom' negation configurations added to C13 (exclusion removed, reference applies repo->profile->user order)",
+ "C16-3": "revision-only bump universes (installed 1 vs available 1-r1 ...) added to C16 (family F9); reference order through verif.ref",
+ "C18-3": "hand-built entries without dev/inode (identical metadata, different data) + 'undeclared files never share an inode' / st_nlink oracle added to C18",
+ "C21-3": "depth-2 histories on one root (op1, in-place env.d rewrite, op2) added to C21",
  "C03-1": "glob atoms with explicit -r0/-r0N revisions + wider match universe added to C03",
  "C03-2": "multi-flag USE lists with a default on a non-last flag added to C03",
  "C04-2": "atom slot form with sub-slot equal to slot (:0/0) added to C04 quick",
